@@ -33,8 +33,11 @@ MANIFEST = {
             'protocols; not re-modelled here, covered by the simulator oracle). mpctools.reduce (tree) is modelled as a fold '
             '(associativity; C32). pickle in runtime.transfer is wrapped per party so that dynamically created group classes '
             'resolve to that party\'s module copy (simulator artefact, /repo untouched). Secret-exponent repeat on elliptic '
-            'curves only with SecInt(4) exponents (a 253-bit exponent takes > 90 s). Class groups / hyperelliptic curves '
-            'not run (minutes per operation). Known findings: F-C28 (public base + shared secint exponent, m>1) and '
+            'curves only with SecInt(4) exponents (a 253-bit exponent takes > 90 s). Hyperelliptic curves not run. Secure class groups Cl(-23), Cl(-227), Cl(-1123) '
+            '(+Cl(-2063) thorough) run at m=3,t=1 (PRSS on/off; thorough also (2,0),(5,2)) and m=1 in fresh simulators with a '
+            'rounds budget (a hang is reported as a violation): inputs of the reduced forms with the largest leading '
+            'coefficients and random forms, @ (incl. squaring, (a@b)@a, a@~b, a*b), ~, ==, !=, if_else, ^k, shared secint '
+            'and secfld exponents, every party comparing with its own plain class group. Known findings: F-C28 (public base + shared secint exponent, m>1) and '
             'Sym(n) over a lifted sectype (to_bits TypeError, root cause F-C04-1), F-C28-3 (repeat_public reads its list '
             'arguments only after the first await).',
     'technique': 'Coq proof over abstract group + multi-party simulator differential check vs plain group oracle and vm_compute share-level replay',
@@ -188,6 +191,81 @@ def make_prog(spec, plan):
                 'modulus': int(G.field.order) if spec[0] in ('qr', 'sg') else None}
     return prog
 
+
+
+def reduced_forms(D):
+    """all reduced primitive positive definite forms of discriminant D (brute force, independent of mpyc)"""
+    import math
+    out = []
+    a = 1
+    while 3 * a * a <= -D:
+        for b in range(-a + 1, a + 1):
+            if (b * b - D) % (4 * a):
+                continue
+            c = (b * b - D) // (4 * a)
+            if c < a or math.gcd(math.gcd(a, abs(b)), c) != 1:
+                continue
+            if (a == c or abs(b) == a) and b < 0:
+                continue
+            out.append((a, b, c))
+        a += 1
+    return out
+
+
+def make_classgroup_prog(D, pairs, plan):
+    """Secure class group Cl(D): elements by input of plain forms; every result compared with mpyc.fingroups by EVERY party."""
+    async def prog(mpc, mods, pid):
+        fg = mods['mpyc.fingroups']
+        mods['mpyc.runtime'].pickle = PickleShim(mods)
+        G = fg.ClassGroup(Delta=D)
+        secgrp = mpc.SecGrp(G)
+        m = len(mpc.parties)
+        ident = G.identity
+        out = []
+
+        def rec(lbl, got, want):
+            out.append((lbl, bool(got == want), canon(got) if hasattr(got, 'value') else got,
+                        canon(want) if hasattr(want, 'value') else want))
+        for i, (f1, f2) in enumerate(pairs):
+            p1, p2 = G(f1), G(f2)
+            a = mpc.input(secgrp(p1 if pid == i % m else ident), senders=i % m)
+            b = mpc.input(secgrp(p2 if pid == (i + 1) % m else ident), senders=(i + 1) % m)
+            tag = '%s,%s' % (list(f1), list(f2))
+            rec('input ' + tag, await mpc.output(a), p1)
+            rec('a@b ' + tag, await mpc.output(a @ b), p1 @ p2)
+            if i < plan['full']:
+                rec('a@a ' + tag, await mpc.output(a @ a), p1 @ p1)
+                rec('(a@b)@a ' + tag, await mpc.output((a @ b) @ a), (p1 @ p2) @ p1)
+                rec('~a ' + tag, await mpc.output(~a), ~p1)
+                rec('a@~b ' + tag, await mpc.output(a @ ~b), p1 @ ~p2)
+                e = await mpc.output([a == b, a == a, a != b, (a @ b) == (p1 @ p2)])
+                for lbl, got, w in zip(('a==b', 'a==a', 'a!=b', 'a@b==plain'), e, (int(p1 == p2), 1, int(p1 != p2), 1)):
+                    rec(lbl + ' ' + tag, int(got), w)
+                c1 = mpc.input(secgrp.sectype(1 if pid == 0 else 0), senders=0)
+                r = await mpc.output([secgrp.if_else(c1, a, b), secgrp.if_else(1 - c1, a, b)])
+                rec('if_else(1,a,b) ' + tag, r[0], p1)
+                rec('if_else(0,a,b) ' + tag, r[1], p2)
+                rec('a*b ' + tag, await mpc.output(a * b), p1 @ p2)
+        f1 = pairs[0][0]
+        p1 = G(f1)
+        a = mpc.input(secgrp(p1 if pid == 0 else ident), senders=0)
+        for k in plan['pubexp']:
+            rec('secret-base public-exp ^%d %s' % (k, list(f1)), await mpc.output(a ^ k), p1 ^ k)
+        for (l, x) in plan['secexp']:
+            st = mpc.SecInt(l)
+            sx = mpc.input(st(x if pid == m - 1 else 0), senders=m - 1)
+            rec('repeat secret-base shared-secint-exponent x=%d l=%d %s' % (x, l, list(f1)), await mpc.output(secgrp.repeat(a, sx)), p1 ^ x)
+        for (q, x) in plan['pubbase_fld']:
+            st = mpc.SecFld(q)
+            sx = mpc.input(st(x if pid == 0 else 0), senders=0)
+            rec('repeat public-base shared-secfld-exponent out=secret x=%d %s' % (x, list(f1)), await mpc.output(secgrp.repeat(p1, sx)), p1 ^ x)
+            rec('repeat public-base shared-secfld-exponent out=public x=%d %s' % (x, list(f1)), await secgrp.repeat_public(p1, sx), p1 ^ x)
+        for x in plan['pubbase_int']:
+            st = secgrp.sectype
+            sx = mpc.input(st(x if pid == 0 else 0), senders=0)
+            rec('repeat public-base shared-secint-exponent out=secret x=%d' % x, await mpc.output(p1 ** sx), p1 ^ x)
+        return {'out': out}
+    return prog
 
 
 ALIAS_MUTATIONS = ['none', 'reverse', 'overwrite', 'del', 'append']
@@ -433,6 +511,63 @@ def _run(ctx):
                         ctx.violation('%s %s %s' % (lbl, gname, cfg), {'cfg': cfg, 'group': gname, 'op': lbl, 'got': got, 'want': want,
                                       'program': 'fut = op(lists); mutate caller lists in place; await fut; expected = result for the arguments at call time'})
             ctx.log('%s: %d outputs checked so far' % (cfg, nout))
+    # ---- secure class groups (every @ goes through _reduce/_bit_length/_divmod): fresh simulator per (Delta, config),
+    # rounds-based budget so that a hang ends as a violation
+    cl_configs = [(3, 1, False), (3, 1, True), (1, 0, False)] + ctx.n([], [(2, 0, False), (5, 2, False), (5, 2, True)])
+    ncl = 0
+    for (m, t, no_prss) in cl_configs:
+        cfg = 'm=%d,t=%d,%s' % (m, t, 'noprss' if no_prss else 'prss')
+        for D in [-23, -227, -1123] + ctx.n([], [-2063]):
+            if (m == 1 or (no_prss and ctx.tier == 'quick')) and D == -23:
+                continue
+            if no_prss and ctx.tier == 'quick' and D == -1123:
+                continue
+            forms = reduced_forms(D)
+            big = sorted(forms, key=lambda f: -f[0])
+            # products / powers of several forms happen on the secure side ((a@b)@a, a@a, ^k); inputs: the forms with the
+            # largest leading coefficient (longest reductions) first, then random pairs
+            pairs = [(big[0], big[1 % len(big)]), (big[0], big[0])] + [(rng.choice(forms), rng.choice(forms)) for _ in range(ctx.n(2, 6))]
+            light = m == 1 or no_prss
+            h = len(forms)                     # class number = group order (prime for these discriminants)
+            plan = {'full': 1 if light and ctx.tier == 'quick' else 2,
+                    'pubexp': [2, -3] if not light else [3],
+                    'secexp': [(3, 5)] if not light or ctx.tier == 'thorough' else [],
+                    'pubbase_fld': [(h, rng.randrange(1, h))] if h in (3, 5, 7, 11, 13) and (t == 0 or m < h) else [],
+                    'pubbase_int': [rng.randrange(1, 6)] if m == 1 else []}
+            if light and ctx.tier == 'quick':
+                pairs = pairs[:3]
+            sim = Sim(m=m, t=t, no_prss=no_prss, seed=ctx.seed + 11 * m + 3, log_messages=False, track_tasks=False)
+            errs = []
+            sim.loop.set_exception_handler(lambda loop, c: errs.append(repr(c.get('exception') or c.get('message'))))
+            try:
+                sim.start()
+                res = sim.run(make_classgroup_prog(D, pairs, plan), idle_limit=10 ** 8 if m == 1 else 3000 if t > 0 else 50000,
+                              max_rounds=ctx.n(1500000, 6000000))
+                if all(isinstance(r, dict) for r in res):
+                    sim.shutdown()
+            finally:
+                sim.close()
+            gname = 'Cl(%d)' % D
+            if not all(isinstance(r, dict) for r in res):
+                ctx.case({'cfg': cfg, 'group': gname, 'failed': True}, kind='failed program')
+                ctx.violation('class-group program did not complete %s %s' % (gname, cfg),
+                              {'cfg': cfg, 'group': gname, 'pairs': pairs, 'plan': plan, 'rounds': getattr(sim, 'rounds', None),
+                               'results': [repr(r)[:200] for r in res], 'loop_errors': errs[:3]})
+                continue
+            for pid, r in enumerate(res):              # every party compares with its own plain class group
+                for (lbl, okv, got, want) in r['out']:
+                    if pid == 0:
+                        nout += 1
+                        ncl += 1
+                        ctx.case({'cfg': cfg, 'group': gname, 'op': lbl}, kind='classgroup m=%d' % m)
+                    if not okv:
+                        if lbl.startswith('repeat public-base shared-secint-exponent'):
+                            sig = 'repeat public-base shared-secint-exponent %s %s %s' % ('m>1' if m > 1 else 'm=1', gname, lbl.split('exponent ')[1])
+                        else:
+                            sig = 'wrong-result %s op=%s party=%d %s' % (gname, lbl, pid, cfg)
+                        ctx.violation(sig, {'cfg': cfg, 'group': gname, 'op': lbl, 'party': pid, 'got': got, 'want': want})
+        ctx.log('class groups %s: %d outputs checked so far' % (cfg, ncl))
+    ctx.extra['classgroup_outputs_checked'] = ncl
     ctx.extra['implementation_outputs_checked'] = nout
     ctx.extra['aliasing_cases'] = nalias
     for nt in sorted(alias_notes):
